@@ -432,7 +432,8 @@ void bn_gen_prime_safep(bn_t a, size_t bits) {
 	while (1) {
 		do {
 			bn_rand(a, RLC_POS, bits);
-		} while (bn_bits(a) != bits);
+			/* An even a would come back as a - 1, which can be shorter. */
+		} while (bn_bits(a) != bits || bn_is_even(a));
 		/* Check if (a - 1)/2 is prime. */
 		bn_sub_dig(a, a, 1);
 		bn_rsh(a, a, 1);
